@@ -406,6 +406,10 @@ def validate_evidence(ev):
 
 def write_evidence(prop, ev):
     d = os.path.join(VERIF, "evidence")
+    if os.path.realpath(REPO) != "/repo":
+        # development runs against a scratch worktree (sensitivity checks) must not
+        # overwrite the evidence of the real tree
+        d = os.path.join(os.environ.get("VERIF_TMP") or "/var/tmp", "verif-evidence-other-tree")
     os.makedirs(d, exist_ok=True)
     path = os.path.join(d, prop + ".json")
     err = validate_evidence(ev)
